@@ -220,7 +220,9 @@ def run(ctx):
     ctx.assumptions += [
         "stage 2 (reduction): the models are tied to the code by exact replay of every journalled call (BD_Shape<mpq_class>, "
         "Octagonal_Shape<mpq_class>, dimension 1..5 resp. 1..4); the FM-based K1 judges run for dimension <= 3, the re-closure "
-        "judge (complete by C03.closure_canonical for BD shapes) for every size; inexact T is outside (KF-C03-61)",
+        "judge (complete by C03.closure_canonical for BD shapes) for every size; inexact T is outside (KF-C03-61); "
+        "the hypotheses of the theorems (closed / strongly closed matrix) are established by the code-shaped closure models "
+        "(bds_closure_closed, oct_strong_closure_closed); soundness and completeness of both exact-join tests are proved",
     ]
     shutil.rmtree(wd, ignore_errors=True)
     return broken
